@@ -78,12 +78,24 @@ type c07AOp struct {
 type c07ACase struct {
 	Depth int      `json:"depth"`
 	Ops   []c07AOp `json:"ops"`
+	// CloseStalled: Close is called while the disk is still stalled (it must wait, by design) and the disk resumes a moment later
+	CloseStalled bool `json:"close_stalled,omitempty"`
 }
 
 func c07AGen(t *rapid.T) c07ACase {
 	c := c07ACase{Depth: rapid.SampledFrom([]int{1, 2, 3, 5, 8, 16}).Draw(t, "depth")}
+	deep := rapid.IntRange(0, 5).Draw(t, "deep") == 0
+	if deep {
+		c.Depth = rapid.SampledFrom([]int{300, 1000}).Draw(t, "deepdepth") // the LJH/OFF writers use 1000
+	}
+	c.CloseStalled = rapid.IntRange(0, 2).Draw(t, "closestalled") == 0
 	n := rapid.IntRange(1, 60).Draw(t, "nops")
 	for i := 0; i < n; i++ {
+		if deep && rapid.IntRange(0, 5).Draw(t, "burst") == 0 {
+			// many records at once, typically against a stalled disk
+			c.Ops = append(c.Ops, c07AOp{Op: "close"}, c07AOp{Op: "burst", N: rapid.IntRange(200, 1100).Draw(t, "burstn")})
+			continue
+		}
 		switch rapid.IntRange(0, 11).Draw(t, "opclass") {
 		case 0:
 			c.Ops = append(c.Ops, c07AOp{Op: "flush"})
@@ -112,7 +124,18 @@ func c07ARun(c c07ACase) (v vVerdict) {
 	var want []byte
 	rejected, acceptedAfterReject := 0, 0
 	pos := 0
-	for i, op := range c.Ops {
+	var ops []c07AOp
+	for _, op := range c.Ops {
+		if op.Op == "burst" {
+			for k := 0; k < op.N && k < 2000; k++ {
+				ops = append(ops, c07AOp{Op: "write", N: 120 + k%7})
+			}
+			continue
+		}
+		ops = append(ops, op)
+	}
+	stalled := false
+	for i, op := range ops {
 		switch op.Op {
 		case "write":
 			p := make([]byte, op.N)
@@ -137,14 +160,17 @@ func c07ARun(c c07ACase) (v vVerdict) {
 			}
 		case "close":
 			gate.set(false)
+			stalled = true
 		case "open":
 			gate.set(true)
+			stalled = false
 		case "yield":
 			for k := 0; k < op.N; k++ {
 				time.Sleep(50 * time.Microsecond)
 			}
 		case "flush":
 			gate.set(true) // a flush against a dead disk blocks by design; the disk must be alive for it to return
+			stalled = false
 			aw.Flush()
 			if got := gate.snapshot(); !bytes.Equal(got, want) {
 				return vFailf("async-flush-content", "op %d: after Flush returned the underlying writer holds %d bytes, accepted so far %d; first difference at %d",
@@ -152,7 +178,15 @@ func c07ARun(c c07ACase) (v vVerdict) {
 			}
 		}
 	}
-	gate.set(true)
+	if c.CloseStalled && stalled {
+		go func() {
+			time.Sleep(time.Millisecond)
+			gate.set(true)
+		}()
+		v.Classes = append(v.Classes, "close-against-stalled-disk")
+	} else {
+		gate.set(true)
+	}
 	aw.Close()
 	if got := gate.snapshot(); !bytes.Equal(got, want) {
 		return vFailf("async-close-content", "after Close returned the underlying writer holds %d bytes, accepted %d; first difference at %d", len(got), len(want), c07FirstDiff(got, want))
